@@ -59,13 +59,13 @@ terminal loop (no machine fault, no wrong value). -/
 theorem core_division_by_zero (cf : Core.Config) (body : Core.S) (hw : 2 ≤ cf.w) (hck : cf.checked = true)
     (hB : Core.funcLen cf.checked body + stdlibLength < 256 ^ cf.w)
     (hSE : 5 * cf.w + cf.stackWords * cf.w + cf.w < 256 ^ cf.w)
-    (hwf : Core.wfS [] body = true)
+    (hwf : Core.wfS [] body = true) (hyl : Core.youLevel body = true)
     (fuel : Nat) (env' : Core.Env) (tr : List Ev)
     (hex : Core.exec (256 ^ cf.w) (8 * cf.w) fuel (fun _ => 0) body = some (env', tr, .div0))
     (hroom : Core.pkS cf.w cf.w body ≤ (cf.stackWords + 1) * cf.w) :
     ∃ mEnd, Exec (sphinx (Core.coreProg cf body)) (Core.coreInit cf body)
       (tr ++ [Ev.flag "division_by_zero", Ev.flag "error"]) ⟨tntPc (Core.funcLen cf.checked body), mEnd⟩ :=
-  let ⟨m, h, _⟩ := Core.core_correct cf body hw hB hSE hwf fuel env' tr .div0 hex (fun _ => hck) hroom
+  let ⟨m, h, _⟩ := Core.core_correct cf body hw hB hSE hwf hyl fuel env' tr .div0 hex (fun _ => hck) hroom
   ⟨m, h⟩
 
 end HidVerif.Props.C05
